@@ -698,8 +698,24 @@ func goCode(root string, unit string) string {
 		emit("style/style.go", text, errs)
 	case "object":
 		header("Model.GoSem", "Model.GoJson", "Model.Ansi")
-		text, errs := translateErrFuncs(parseFile(root, "object/object.go"), []string{"GetAny", "GetString", "GetObject", "GetList", "GetTime", "GetURL", "GetMediaType"}, "GenObject")
+		text, errs := translateErrFuncs(parseFile(root, "object/object.go"), []string{"GetAny", "GetString", "GetNumber", "GetObject", "GetList", "GetTime", "GetURL", "GetMediaType"}, "GenObject")
 		emit("object/object.go (typed accessors)", text, errs)
+	case "config":
+		header("Model.GoSem")
+		text, errs := translateConfig(parseFile(root, "config/config.go"))
+		emit("config/config.go (struct, defaults, postprocess)", text, errs)
+	case "link":
+		header("Model.GoSem", "Model.GoJson", "Model.Link")
+		text, errs := translateLink(root, "pub/link.go")
+		emit("pub/link.go (struct, constructor, methods, selection)", text, errs)
+	case "collection":
+		header("Model.GoRec", "Model.Json", "Model.Collection")
+		text, errs := translateCollection(parseFile(root, "pub/collection.go"))
+		emit("pub/collection.go (Harvest, harvestWithEmptyCount)", text, errs)
+	case "splicer":
+		header("Model.GoSem", "Model.GoSlices")
+		text, errs := translateSplicer(parseFile(root, "splicer/splicer.go"), parseFile(root, "pub/interfaces.go"), "Splicer", []string{"Harvest", "clone", "replenish", "microharvest"})
+		emit("splicer/splicer.go (element type, Harvest, clone, replenish, microharvest)", text, errs)
 	default:
 		b.WriteString("-- unknown unit " + unit + "\n")
 	}
